@@ -120,6 +120,7 @@ type FuncContract struct {
 	Line     int
 	Bounded  string
 	ParamSet map[string]string // notnil etc.
+	FromTemplate bool // instantiated from a `methods` / `funcs` template
 	TrustNonNil []string // `trust nonnil pkg.Iface`: methods of that interface return non-nil pointers when their error is nil
 }
 
